@@ -38,11 +38,17 @@ impl RevocationRegistry {
 
     /// Remove the specified elements from the registry
     pub fn revoke(&mut self, sk: &SecretKey, elements: &[String]) -> CredxResult<()> {
-        let mut removals = Vec::new();
+        // Validate the whole batch before touching any state, so that an error
+        // leaves the active set and the accumulator value unchanged.
+        let mut batch = IndexSet::new();
         for e in elements {
-            if !self.active.shift_remove(e) {
+            if !self.active.contains(e) || !batch.insert(e) {
                 return Err(Error::InvalidRevocationRegistryRevokeOperation);
             }
+        }
+        let mut removals = Vec::new();
+        for e in batch {
+            self.active.shift_remove(e);
             removals.push(Element::hash(e.as_bytes()));
         }
 
